@@ -131,10 +131,13 @@ func kaScenario(id, K int, interval time.Duration, count int, kind string) strin
 		// the subject subscribes to a topic it publishes to itself, stops reading and sends until its own
 		// outgoing ring is full (its processor is then parked behind its own client), then falls silent.
 		//   deafecho:  just enough packets for that (16 KiB ring, 4 packets fit, the echo of the 5th parks the
-		//              processor); the incoming ring keeps room for a read block, so the receiver is inside a
-		//              socket read with the keep-alive deadline armed when the client falls silent (finding F7)
-		//   deafflood: the client keeps sending until its writes block: the incoming ring fills up as well and
-		//              the receiver waits for ring space - no socket read is pending, no deadline is armed (F8)
+		//              processor); the incoming ring keeps room, so the receiver is inside a socket read with
+		//              the keep-alive deadline armed when the client falls silent (finding F7)
+		//   deafflood: the client keeps sending until its writes block (at most 16 packets): the incoming ring
+		//              fills up COMPLETELY as well (the 5th to the 8th packet and the first bytes of the 9th) and
+		//              the receiver waits because the ring is full - no socket read is pending, no deadline is
+		//              armed (F8).  (Since 8f682d1 the receiver reads as long as ONE byte is free; before, it
+		//              stopped when less than a read block was free and 8 packets were enough.)
 		topic := []byte(fmt.Sprintf("echo/%d", id))
 		// paused before the SUBSCRIBE: the reader goroutine's pending Read takes the SUBACK and nothing after it
 		cl.setPaused(true)
@@ -143,7 +146,7 @@ func kaScenario(id, K int, interval time.Duration, count int, kind string) strin
 		pkt := wPub{qos: 0, topic: topic, payload: make([]byte, 4000)}.encode()
 		n := 16384/len(pkt) + 1
 		if kind == "deafflood" {
-			n += 3
+			n = 16 // never reached: the write of the 9th packet blocks and its deadline ends the loop
 		}
 		for i := 0; i < n; i++ {
 			cl.conn.SetWriteDeadline(time.Now().Add(300 * time.Millisecond))
@@ -265,8 +268,8 @@ func genKA(seed int64, n int, tier string, w *bufio.Writer) {
 	fmt.Fprintln(w, "ka reset")
 	type scn struct{ k, iv, cnt int; kind string }
 	// deafsub / deafecho: the subject has stopped READING (own outgoing ring full; deafecho: its own processor
-	// parked in it - finding F7, fixed by b77088f); deafflood (thorough): both rings full, the receiver waits for
-	// ring space and no read deadline is armed - open finding F8
+	// parked in it - finding F7, fixed by b77088f); deafflood (thorough): both rings completely full, the receiver
+	// waits because the incoming ring is full and no read deadline is armed - open finding F8
 	fixed := []scn{{1, 0, 0, "ping"}, {1, 400, 4, "ping"}, {1, 500, 3, "pub"}, {1, 2100, 2, "ping"}, {2, 900, 3, "pub"}, {1, 900, 3, "ping"},
 		{1, 300, 0, "silentsub"}, {1, 300, 1, "resumed"}, {2, 1900, 4, "irr"}, {1, 950, 4, "irr"}, {1, 100, 0, "deafsub"}, {1, 100, 0, "deafecho"},
 		{2, 100, 0, "deafecho"}, {1, 100, 0, "deafflood"}, {2, 150, 0, "deafsub"}, {1, 400, 2, "resumed"}}
